@@ -280,6 +280,12 @@ def classes_contract(classes):
                 if key not in per_year:
                     per_year[key] = year_contract(kind, lo, hi)
                 return per_year[key](eng, st, args)
+        # no single class is implied by the path condition: split on the classes that are feasible
+        for (lo, hi, kind) in classes:
+            inside = z3.And(t >= lo, t < hi)
+            if eng.ctx.check(st.pc, inside) != 'unsat':
+                if eng.decide(st, inside):
+                    return f(eng, st, args)
         raise RuntimeError('classes_contract: no class covers this call')
     return f
 
@@ -290,3 +296,42 @@ def range_lemma_negation(yt, m, d, kind):
     if kind == 'below':
         return z3.Not(z3.And(rng, yt >= -69, yt <= -4))
     return z3.Not(z3.And(rng, yt >= 52, yt <= 68))
+
+
+
+# ---- window contract for LocalDateTime::forEpochSeconds around a concrete day (C07) ------------------------------------
+
+def ldt_window_contract(day0, ndays):
+    """x in [day0*86400, (day0+ndays)*86400): the date fields are those of the concrete days of the window (chosen by
+    thresholds on x), the time fields are fresh with 3600h+60mi+s == x - 86400*day.  Exact; an instance of the C06 lemma
+    'forEpochSeconds(x) is the calendar date-time of x' (c06_seconds_roundtrip spec obligations)."""
+    lo, hi = day0 * 86400, (day0 + ndays) * 86400
+    dates = [cal.civil(day0 + k) for k in range(ndays)]
+
+    def f(eng, st, args):
+        x = args[0]
+        if _is_conc(x):
+            return NotImplemented
+        ck = ('ldtwin', x.get_id())
+        hit = st.user.get(ck)
+        if hit is not None:
+            return hit[0]
+        _pre(eng, st, z3.And(x >= lo, x < hi), 'LocalDateTime::forEpochSeconds argument within the %d-day window' % ndays)
+        yt = z3.BitVecVal((dates[-1][0] - 2000) & 0xff, 8)
+        m = z3.BitVecVal(dates[-1][1], 8)
+        d = z3.BitVecVal(dates[-1][2], 8)
+        start = z3.BitVecVal((lo + 86400 * (ndays - 1)) & 0xffffffff, 32)
+        for k in range(ndays - 2, -1, -1):
+            c = x < lo + 86400 * (k + 1)
+            yt = z3.If(c, z3.BitVecVal((dates[k][0] - 2000) & 0xff, 8), yt)
+            m = z3.If(c, z3.BitVecVal(dates[k][1], 8), m)
+            d = z3.If(c, z3.BitVecVal(dates[k][2], 8), d)
+            start = z3.If(c, z3.BitVecVal((lo + 86400 * k) & 0xffffffff, 32), start)
+        h, mi, s = eng.fresh('w_h', 8), eng.fresh('w_mi', 8), eng.fresh('w_s', 8)
+        st.pc.append(z3.And(z3.ULT(h, 24), z3.ULT(mi, 60), z3.ULT(s, 60),
+                            z3.ZeroExt(24, h) * 3600 + z3.ZeroExt(24, mi) * 60 + z3.ZeroExt(24, s) == x - start))
+        r = z3.Concat(s, mi, h, d, m, yt)
+        st.user[ck] = (r, x)
+        st.user['contracts_used'] = st.user.get('contracts_used', 0) + 1
+        return r
+    return f
